@@ -153,9 +153,94 @@ Proof.
     + apply forallb_forall. intros x Hx. apply in_rev in Hx. revert x Hx. now apply forallb_forall.
 Qed.
 
+(* ------------------------------------------------------------------ strings.TrimSpace around a core that may hold Unicode spaces INSIDE *)
+(* every pattern of the Unicode spaces starts with a lead byte; no pattern holds an ASCII space *)
+Definition heads_lead (ps : list bytes) : bool :=
+  forallb (fun p => match p with c :: _ => uni_lead c | [] => false end) ps.
+Definition no_sp_in (ps : list bytes) : bool := forallb (forallb (fun c => negb (is_sp c))) ps.
+Lemma heads_uni : heads_lead uni_spaces = true.
+Proof. vm_compute. reflexivity. Qed.
+Lemma nosp_uni : no_sp_in uni_spaces = true.
+Proof. vm_compute. reflexivity. Qed.
+Lemma nosp_uni_rev : no_sp_in (map (@rev ascii) uni_spaces) = true.
+Proof. vm_compute. reflexivity. Qed.
+
+Lemma strip_none_hd ps : heads_lead ps = true -> forall c s, uni_lead c = false ->
+  strip_one_prefix ps (c :: s) = None.
+Proof.
+  induction ps as [|p r IH]; intros Hp c s Hc; cbn [strip_one_prefix]; [reflexivity|].
+  cbn [heads_lead forallb] in Hp. apply andb_true_iff in Hp as [Hp1 Hp2].
+  destruct (prefixb p (c :: s)) eqn:E.
+  - exfalso. destruct p as [|x p']; [discriminate|]. cbn [prefixb] in E.
+    apply andb_true_iff in E as [E _]. apply Ascii.eqb_eq in E. subst x. congruence.
+  - now apply IH.
+Qed.
+
+(* no pattern matches at the start of a: then none matches when white space (or nothing) follows a *)
+Lemma strip_ext ps : no_sp_in ps = true -> forall a b,
+  strip_one_prefix ps a = None -> (b = [] \/ hd_ok b = false) ->
+  strip_one_prefix ps (a ++ b) = None.
+Proof.
+  induction ps as [|p r IH]; intros Hp a b Ha Hb; cbn [strip_one_prefix] in *; [reflexivity|].
+  cbn [no_sp_in forallb] in Hp. apply andb_true_iff in Hp as [Hp1 Hp2].
+  destruct (prefixb p a) eqn:Ea; [discriminate|].
+  destruct (prefixb p (a ++ b)) eqn:E.
+  - exfalso. apply prefixb_spec in E as [t E].
+    apply app_eq_app in E as [l [[Hal Hl]|[Hpl Hl]]].
+    + assert (X : prefixb p a = true) by (apply prefixb_spec; now exists l). congruence.
+    + destruct l as [|x l'].
+      * rewrite app_nil_r in Hpl. subst p.
+        assert (X : prefixb a a = true) by (apply prefixb_spec; exists []; now rewrite app_nil_r). congruence.
+      * destruct Hb as [Hb|Hb]; [subst b; discriminate|]. subst b p. cbn [app hd_ok] in Hb.
+        apply negb_false_iff in Hb.
+        rewrite forallb_app in Hp1. apply andb_true_iff in Hp1 as [_ Hp1]. cbn [forallb] in Hp1.
+        apply andb_true_iff in Hp1 as [Hx _]. rewrite Hb in Hx. discriminate.
+  - now apply IH.
+Qed.
+
+Lemma tlf_core : forall b fuel s, forallb is_sp b = true -> (length (b ++ s) <= fuel)%nat ->
+  hd_ok s = true -> strip_one_prefix uni_spaces s = None ->
+  trim_left_fuel fuel (b ++ s) = s.
+Proof.
+  induction b as [|x b IH]; intros fuel s Hb Hl Hh Hs.
+  - cbn [app] in *. destruct s as [|c r]; [destruct fuel; reflexivity|].
+    destruct fuel as [|f]; [cbn [length] in Hl; lia|]. cbn [trim_left_fuel].
+    cbn [hd_ok] in Hh. apply negb_true_iff in Hh. now rewrite Hh, Hs.
+  - cbn [forallb] in Hb. apply andb_true_iff in Hb as [Hx Hb].
+    cbn [app length] in Hl. destruct fuel as [|f]; [lia|]. cbn [app trim_left_fuel]. rewrite Hx.
+    apply IH; auto. lia.
+Qed.
+Lemma tlrf_core : forall b fuel s, forallb is_sp b = true -> (length (b ++ s) <= fuel)%nat ->
+  hd_ok s = true -> strip_one_prefix (map (@rev ascii) uni_spaces) s = None ->
+  trim_left_rev_fuel fuel (b ++ s) = s.
+Proof.
+  induction b as [|x b IH]; intros fuel s Hb Hl Hh Hs.
+  - cbn [app] in *. destruct s as [|c r]; [destruct fuel; reflexivity|].
+    destruct fuel as [|f]; [cbn [length] in Hl; lia|]. cbn [trim_left_rev_fuel].
+    cbn [hd_ok] in Hh. apply negb_true_iff in Hh. now rewrite Hh, Hs.
+  - cbn [forallb] in Hb. apply andb_true_iff in Hb as [Hx Hb].
+    cbn [app length] in Hl. destruct fuel as [|f]; [lia|]. cbn [app trim_left_rev_fuel]. rewrite Hx.
+    apply IH; auto. lia.
+Qed.
+
+(* TrimSpace takes the white space around a core off and nothing else, when the core neither
+   starts nor ends with a white-space character; what is inside the core does not matter *)
+Lemma go_trim_core b1 core b2 : forallb is_sp b1 = true -> forallb is_sp b2 = true ->
+  core <> [] -> hd_ok core = true -> strip_one_prefix uni_spaces (core ++ b2) = None ->
+  hd_ok (rev core) = true -> strip_one_prefix (map (@rev ascii) uni_spaces) (rev core) = None ->
+  go_trim (b1 ++ core ++ b2) = core.
+Proof.
+  intros H1 H2 Hne Hh Hs Hl Hr. unfold go_trim, trim_left.
+  rewrite (tlf_core b1 _ (core ++ b2)); [|exact H1|apply le_n|now apply hd_ok_app|exact Hs].
+  rewrite rev_app_distr.
+  rewrite tlrf_core; [apply rev_involutive| | |exact Hl|exact Hr].
+  - apply forallb_forall. intros x Hx. apply in_rev in Hx. revert x Hx. now apply forallb_forall.
+  - rewrite !app_length, !rev_length. lia.
+Qed.
+
 (* ------------------------------------------------------------------ take_key *)
 Lemma take_key_split : forall key fuel rest acc,
-  forallb (fun c => negb (is_sp c)) key = true -> NU (key ++ rest) ->
+  forallb (fun c => negb (is_sp c)) key = true -> NU key ->
   hd_ok rest = false \/ rest = [] ->
   (length (key ++ rest) <= fuel)%nat ->
   take_key fuel (key ++ rest) acc = (rev acc ++ key, rest).
@@ -168,8 +253,7 @@ Proof.
   - cbn [app length] in Hl. destruct fuel as [|f]; [lia|].
     cbn [forallb] in Hk. apply andb_true_iff in Hk as [Hk1 Hk2]. apply negb_true_iff in Hk1.
     cbn [app take_key]. rewrite Hk1.
-    change (k :: key ++ rest) with ((k :: key) ++ rest).
-    rewrite (strip_none _ pats_uni _ Hn).
+    rewrite (strip_none_hd _ heads_uni k (key ++ rest)) by (apply Hn; now left).
     rewrite IH; [|exact Hk2|now apply NU_tail in Hn|exact Hr|lia].
     cbn [rev]. now rewrite <- app_assoc.
 Qed.
@@ -179,7 +263,10 @@ Lemma rline_ok_inv l : rline_ok l = true ->
   forallb is_blank (q_lead l) = true /\ forallb is_blank (q_sep l) = true /\
   forallb is_blank (q_trail l) = true /\ q_key l <> [] /\
   forallb (fun c => negb (is_sp c)) (q_key l) = true /\ NU (q_key l) /\
-  is_comment (q_key l) = false /\ NU (q_val l) /\ hd_ok (rev (q_val l)) = true /\
+  is_comment (q_key l) = false /\
+  (strip_one_prefix uni_spaces (q_val l) = None /\
+   strip_one_prefix (map (@rev ascii) uni_spaces) (rev (q_val l)) = None) /\
+  hd_ok (rev (q_val l)) = true /\
   (q_val l = [] \/ (q_val l <> [] /\ hd_ok (q_val l) = true /\ q_sep l <> [])).
 Proof.
   unfold rline_ok. intros H.
@@ -188,9 +275,12 @@ Proof.
   apply andb_true_iff in H as [H H7]. apply andb_true_iff in H as [H H6].
   apply andb_true_iff in H as [H H5]. apply andb_true_iff in H as [H H4].
   apply andb_true_iff in H as [H H3]. apply andb_true_iff in H as [H1 H2].
-  apply no_uni_NU in H6, H8. apply negb_true_iff in H7.
+  apply no_uni_NU in H6. apply negb_true_iff in H7.
+  unfold val_edges_ok in H8. apply andb_true_iff in H8 as [H8a H8b].
   repeat split; try assumption.
   - intros E. rewrite E in H4. discriminate.
+  - destruct (strip_one_prefix uni_spaces (q_val l)); [discriminate|reflexivity].
+  - destruct (strip_one_prefix (map (@rev ascii) uni_spaces) (rev (q_val l))); [discriminate|reflexivity].
   - destruct (q_val l) as [|c r]; [now left|right].
     apply andb_true_iff in H11 as [Ha Hb]. repeat split.
     + discriminate.
@@ -211,16 +301,10 @@ Qed.
 (* what strings.TrimSpace leaves of a rendered line *)
 Definition q_rest (l : rline) : bytes := match q_val l with [] => [] | _ => q_sep l ++ q_val l end.
 
-Lemma render_NU l : rline_ok l = true -> NU (rline_render l).
-Proof.
-  intros H. apply rline_ok_inv in H as (H1 & H2 & H3 & _ & _ & H6 & _ & H8 & _).
-  unfold rline_render. repeat (apply NU_app; split); auto using blanks_NU.
-Qed.
-
 Lemma go_trim_render l : rline_ok l = true -> go_trim (rline_render l) = q_key l ++ q_rest l.
 Proof.
-  intros Hok. rewrite (go_trim_nouni _ (render_NU _ Hok)).
-  apply rline_ok_inv in Hok as (H1 & H2 & H3 & H4 & H5 & H6 & H7 & H8 & H9 & H10).
+  intros Hok.
+  apply rline_ok_inv in Hok as (H1 & H2 & H3 & H4 & H5 & H6 & H7 & (H8a & H8b) & H9 & H10).
   apply blanks_sp in H1, H2, H3.
   assert (Hkh : hd_ok (q_key l) = true).
   { destruct (q_key l) as [|c r]; [reflexivity|]. cbn [forallb] in H5.
@@ -229,45 +313,59 @@ Proof.
   { destruct (rev (q_key l)) as [|c r] eqn:E; [reflexivity|]. cbn [hd_ok].
     assert (Hin : In c (q_key l)) by (apply in_rev; rewrite E; now left).
     exact (proj1 (forallb_forall _ _) H5 c Hin). }
+  (* the directive has no lead byte of a Unicode space: nothing is taken off its front *)
+  assert (Hku : forall k s, q_key l = k -> strip_one_prefix uni_spaces (k ++ s) = None).
+  { intros k s E. destruct k as [|c r]; [congruence|]. cbn [app].
+    apply strip_none_hd; [exact heads_uni|]. apply H6. rewrite E. now left. }
   unfold rline_render, q_rest. destruct H10 as [Hv|(Hv & Hvh & Hs)].
   - rewrite Hv. cbn [app]. rewrite app_nil_r.
-    apply trim_core; auto. rewrite forallb_app. now rewrite H2, H3.
+    apply go_trim_core;
+      [exact H1|rewrite forallb_app; now rewrite H2, H3|exact H4|exact Hkh|now apply Hku|exact Hkl|].
+    apply strip_none; [exact pats_uni_rev|now apply NU_rev].
   - destruct (q_val l) as [|v vs] eqn:Ev; [congruence|].
     replace (q_lead l ++ q_key l ++ q_sep l ++ (v :: vs) ++ q_trail l)
       with (q_lead l ++ (q_key l ++ q_sep l ++ v :: vs) ++ q_trail l)
       by (now rewrite <- !app_assoc).
-    apply trim_core; auto.
-    + apply hd_ok_app; assumption.
+    apply go_trim_core; [exact H1|exact H3| |apply hd_ok_app; assumption| | |].
+    + intros E. apply app_eq_nil in E as [E _]. congruence.
+    + rewrite <- app_assoc. now apply Hku.
     + rewrite !rev_app_distr. rewrite <- app_assoc. apply hd_ok_app; [|exact H9].
       intros E. apply (f_equal (@rev ascii)) in E. rewrite rev_involutive in E. discriminate.
+    + (* the argument's end is no white space, and blanks stand before the argument: no
+         reversed pattern matches across that border *)
+      rewrite !rev_app_distr. rewrite <- app_assoc.
+      apply strip_ext; [exact nosp_uni_rev|exact H8b|right].
+      destruct (rev (q_sep l)) as [|c r] eqn:E.
+      { apply (f_equal (@rev ascii)) in E. rewrite rev_involutive in E. cbn in E. congruence. }
+      cbn [app hd_ok]. apply negb_false_iff.
+      assert (Hin : In c (q_sep l)) by (apply in_rev; rewrite E; now left).
+      exact (proj1 (forallb_forall _ _) H2 c Hin).
 Qed.
 
-(* a structured line is read back as its directive and argument *)
+(* a structured line is read back as its directive and argument -- whatever white space
+   (runs of blanks, tabs, \v \f \r, multi-byte Unicode spaces) stands INSIDE the argument *)
 Theorem recipe_line_roundtrip : forall l, rline_ok l = true ->
   is_comment (go_trim (rline_render l)) = false /\
   parse_recipe_line (rline_render l) = (q_key l, q_val l).
 Proof.
-  intros l Hok. pose proof (go_trim_render _ Hok) as Ht. pose proof (render_NU _ Hok) as Hnu.
+  intros l Hok. pose proof (go_trim_render _ Hok) as Ht.
   pose proof Hok as Hinv.
-  apply rline_ok_inv in Hinv as (H1 & H2 & H3 & H4 & H5 & H6 & H7 & H8 & H9 & H10).
+  apply rline_ok_inv in Hinv as (H1 & H2 & H3 & H4 & H5 & H6 & H7 & (H8a & H8b) & H9 & H10).
   assert (Hrest : q_rest l = [] \/ exists c r, q_rest l = c :: r /\ is_blank c = true).
   { unfold q_rest. destruct H10 as [Hv|(Hv & Hvh & Hs)]; [rewrite Hv; now left|].
     destruct (q_val l) as [|v vs]; [congruence|]. right.
     destruct (q_sep l) as [|c r]; [congruence|]. exists c, (r ++ v :: vs). split; [reflexivity|].
     cbn [forallb] in H2. apply andb_true_iff in H2 as [H2 _]. exact H2. }
-  assert (HrNU : NU (q_rest l)).
-  { unfold q_rest. destruct (q_val l); [apply NU_nil|]. apply NU_app. split; auto using blanks_NU. }
   split.
   - rewrite Ht. now apply is_comment_key.
   - unfold parse_recipe_line. rewrite Ht.
-    rewrite (take_key_split (q_key l) _ (q_rest l) []); [| exact H5 | | | apply le_n].
-    + cbn [rev app]. f_equal.
-      rewrite (go_trim_nouni _ HrNU). unfold q_rest.
+    rewrite (take_key_split (q_key l) _ (q_rest l) []); [| exact H5 | exact H6 | | apply le_n].
+    + cbn [rev app]. f_equal. unfold q_rest.
       destruct H10 as [Hv|(Hv & Hvh & Hs)]; [rewrite Hv; reflexivity|].
       destruct (q_val l) as [|v vs] eqn:Ev; [congruence|].
       rewrite <- (app_nil_r (v :: vs)) at 1.
-      apply trim_core; auto using blanks_sp.
-    + apply NU_app. now split.
+      apply go_trim_core;
+        [apply blanks_sp; exact H2|reflexivity|discriminate|exact Hvh|rewrite app_nil_r; exact H8a|exact H9|exact H8b].
     + destruct Hrest as [E|(c & r & E & Hb)]; [now right|left].
       rewrite E. cbn [hd_ok]. now rewrite (blank_sp _ Hb).
 Qed.
